@@ -169,4 +169,6 @@ class MetaOnly(Suite):
 
     matchers = {
         "F2": lambda op, impl, model: any(e["p"] == META for e in op["src"]["tree"]),
+        "F20": lambda op, impl, model: any(k == "73656375726974792e6361706162696c697479" for e in op["src"]["tree"] if e.get("t") == "file" for k, _ in e.get("x", []))
+        and model.get("c01") is False and model.get("c01_why") == "xattrs of a created entry are missing",
     }
